@@ -159,16 +159,16 @@ def angles_run():
     return run
 
 
-def _j(name, run, tier, to=60000):
-    return harness.run_job(name, run, timeout_ms=to if tier == "quick" else 600000, second=(tier == "thorough"), prune_timeout_ms=4000)
+def _j(name, run, tier, to=60000, witness=None):
+    return harness.run_job(name, run, timeout_ms=to if tier == "quick" else 600000, second=(tier == "thorough"), prune_timeout_ms=4000, witness=witness)
 
 
 def job_norm(tier):
-    return _j("normalisation mcnorm (real __init__)", norm_run(), tier, 120000)
+    return _j("normalisation mcnorm (real __init__)", norm_run(), tier, 120000, witness=(P2._geom_sampler(generalised=False), 10))
 
 
 def job_weight(tier):
-    return _j("weight identity (real throw slice + real mcintegral)", weight_run(), tier, 120000)
+    return _j("weight identity (real throw slice + real mcintegral)", weight_run(), tier, 120000, witness=(P2._geom_sampler(sliced=True), 20))
 
 
 def job_maps(tier):
@@ -176,7 +176,7 @@ def job_maps(tier):
 
 
 def job_angles(tier):
-    return _j("angle coordinates: inverse CDFs and ranges", angles_run(), tier)
+    return _j("angle coordinates: inverse CDFs and ranges", angles_run(), tier, witness=(P2._geom_sampler(sliced=True), 20))
 
 
 def job_cubic(tier):
